@@ -58,17 +58,27 @@ func kaSchedule(I int64, script []kaStep) (starts, ends []int64) {
 	return
 }
 
-// kaOffGrid bumps delays so that no ping ends on a tick instant (a ping that ends exactly when a tick
-// fires leaves the order of the two to the scheduler).
+// kaOffGrid lengthens overruns so that no ping ends on a tick instant that fires while it is in flight (a
+// ping that ends exactly when a tick fires leaves the order of the two to the scheduler).  Pings that
+// honour their deadline and are issued on a tick end before the next one; others are issued the moment
+// an overrunning ping ends, so lengthening that one moves them.
 func kaOffGrid(I int64, script []kaStep) {
-	for i := range script {
-		for {
-			_, ends := kaSchedule(I, script[:i+1])
-			if ends[i]%I != 0 || script[i].kind == 'n' {
+	for iter := 0; iter < 10000; iter++ {
+		starts, ends := kaSchedule(I, script)
+		bad := -1
+		for i := range script {
+			if ends[i]%I == 0 && ends[i] > starts[i] {
+				bad = i
 				break
 			}
-			script[i].d++
 		}
+		for bad >= 0 && !script[bad].overruns() {
+			bad--
+		}
+		if bad < 0 {
+			return
+		}
+		script[bad].d++
 	}
 }
 
